@@ -1901,6 +1901,12 @@ class ContractionTree:
                 i = -1
             rng = None
 
+        if subtree_search == "random":
+            # the random subtree search must follow ``seed`` as well
+            subtree_rng = get_rng(seed) if rng is None else rng
+        else:
+            subtree_rng = None
+
         candidates, weights = tree.calc_subtree_candidates(
             pwr=weight_pwr, what=weight_what
         )
@@ -1922,7 +1928,10 @@ class ContractionTree:
 
                 # get a subtree to possibly reconfigure
                 sub_leaves, sub_branches = tree.get_subtree(
-                    sub_root, size=subtree_size, search=subtree_search
+                    sub_root,
+                    size=subtree_size,
+                    search=subtree_search,
+                    seed=subtree_rng,
                 )
 
                 sub_leaves = frozenset(sub_leaves)
@@ -2091,6 +2100,9 @@ class ContractionTree:
                         "select": rng.choice(subtree_select),
                         "weight_pwr": rng.choice(subtree_weight_pwr),
                         "weight_what": rng.choice(subtree_weight_what),
+                        # make each (possibly remote) reconfiguration
+                        # deterministic given the overall ``seed``
+                        "seed": rng.getrandbits(32),
                     }
                     for _ in range(num_trees)
                 ]
@@ -4048,7 +4060,8 @@ class PartitionTreeBuilder:
         **partition_opts,
     ):
         tree = ContractionTree(inputs, output, size_dict, track_childless=True)
-        rand_size_dict = jitter_dict(size_dict, random_strength, seed)
+        rng = get_rng(seed)
+        rand_size_dict = jitter_dict(size_dict, random_strength, rng)
         leaves = tuple(tree.gen_leaves())
         for node in leaves:
             tree._add_node(node, check=check)
@@ -4063,6 +4076,7 @@ class PartitionTreeBuilder:
                 output,
                 rand_size_dict,
                 parts=parts,
+                seed=rng,
                 **partition_opts,
             )
             groups = separate(leaves, membership)
